@@ -165,6 +165,10 @@ func newPrepWith(b *runner.Batch, n int, set world.Set) *prep {
 		w.FundGAS(world.Hash160Of(k), 1000_0000_0000)
 	}
 	w.FundGAS(p.stranger.ScriptHash(), 1000_0000_0000)
+	// the committee's accounts may stand as senders too
+	for _, a := range []util.Uint160{w.Alphabet.ScriptHash(), w.Majority.ScriptHash(), w.Members[0].ScriptHash(), p.irMajority.ScriptHash()} {
+		w.FundGAS(a, 1000_0000_0000)
+	}
 	w.FundNEO(p.u0.ScriptHash(), 100)
 	A := w.Alpha()
 	ok := must(b, w.Invoke(A, w.H("balance"), "mint", p.u0.ScriptHash(), int64(100000), []byte{1}), "mint") &&
